@@ -133,7 +133,7 @@ impl MarlinPST13 {
 //@rw 1 /(?s)(let beta_minus_z: E::G2Affine =\s*\(.*?\))\.into\(\);/ => \1.into_affine();
 //@end
 
-//@fn id=pst13.batch_check file=poly-commit/src/marlin/marlin_pst13_pc/mod.rs scope="impl<E, P> PolynomialCommitment<E::ScalarField, P> for MarlinPST13<E, P>" name=batch_check props=C05,C03,C10
+//@fn id=pst13.batch_check file=poly-commit/src/marlin/marlin_pst13_pc/mod.rs scope="impl<E, P> PolynomialCommitment<E::ScalarField, P> for MarlinPST13<E, P>" name=batch_check props=C05,C03,C10,C11
     fn batch_check<'a>(vk: &VerifierKey, commitments: Vec<&'a LabeledCommitment<marlin_pc::Commitment>>, query_set: &BTreeSet<(String, (String, Vec<Fr>))>, values: &BTreeMap<(String, Vec<Fr>), Fr>, proof: &Vec<Proof>, sponge: &mut Sponge, rng: &mut Rng) -> (res: Result<bool, Error>)
     requires
         rng.present@, vk.prepared_beta_h@.len() >= vk.num_vars,
